@@ -7,7 +7,7 @@ N_CASES = {"quick": 256, "thorough": 6400}
 CAP = {"quick": 40, "thorough": 200}
 REQS_PER_SCHEMA = 3
 MIN_NONTRIVIAL = 30
-RULE = ("case = random schema with a mutation root (2-6 root fields, nested lists/objects, @vtgate suspension points) x "
+RULE = ("case = random schema with a mutation root (2-6 root fields, nested lists/objects, @vtgate suspension points; in one case in eight `schema { query: R mutation: R }` shares the root type with queries) x "
         "%d mutation documents with 2-5 root selections (aliases, repeated keys, root-level inline/named fragments) x "
         "fault placements (none / nullable root fails / non-null root fails / nested failures) x schedules of the nested "
         "gates (exhaustive DFS up to a cap, then LIFO + random). Oracle, offline on the scheduler log: every event "
@@ -100,6 +100,8 @@ async def check_request(ctx, s, engine, req, faults, ref, sdl, cap, rng):
         if stray:
             ctx.violation("task-alive-after-execute", repr(stray[:2]), c2)
     st.inc("mutations")
+    if s.mutation == s.query:
+        st.inc("mutations_on_a_root_type_shared_with_query")
     st.inc("distinct_schedules", len(orders))
     if exhaustive:
         st.inc("exhaustively_enumerated")
@@ -121,7 +123,8 @@ def gen_mutation_doc(rng, s):
 
 async def run_case(ctx, rng, index):
     so = smodel.GenOpts(n_objects=(2, 3), n_interfaces=(0, 1), n_unions=(0, 1), fields=(2, 3), p_gate=0.25,
-                        p_mutation=1.0, p_nonnull=rng.choice([0.2, 0.5]))
+                        p_mutation=1.0, p_nonnull=rng.choice([0.2, 0.5]),
+                        p_shared_root=0.25 if index % 2 else 0.0)
     s = smodel.gen_schema(rng, so)
     if rng.random() < 0.5:
         for t in s.objects():
